@@ -242,6 +242,22 @@ theorem C07_token_spelling_clean (t : Tok) (hw : TokWF t) (hs : ∀ b, t ≠ .st
     hasPair remarkPairs (sp t) = false :=
   tok_clean t hw hs he
 
+/-- **Part I, generic in the printer**: any sequence of `raw`/`wrap` fragments, each written as leading blanks followed by tokens
+with the blanks after them (`AFrag`), that is statically no-glue-safe (`SafeSeq`) is read back by the scanner as exactly its tokens,
+from any state satisfying `K`, at every line length — and if no single token contains a remark opener or closer, neither does the
+text.  The expression printer is one instance (`C07_lex_layout_partial`); a declaration printer whose fragments are annotated the
+same way gets its character-level round trip from this theorem and its token-level one (`C07_schema_roundtrip_partial` …). -/
+theorem C07_safe_fragments_lex (as : List AFrag) (st : PState) (TS : List Tok) (hK : K st TS none) (hs : SafeSeq none as) :
+    Lexes (run st (as.map AFrag.frag)).text (TS ++ as.flatMap AFrag.toks)
+      ∧ ((∀ a ∈ as, ∀ x ∈ a.body, hasPair remarkPairs (sp x.1) = false) → st.text = [] →
+          hasPair remarkPairs (run st (as.map AFrag.frag)).text = false) := by
+  refine ⟨?_, fun hcl ht0 => ?_⟩
+  · obtain ⟨lt', hK', _⟩ := K_run as st TS none none hK (Or.inl rfl) hs
+    have := hK'.2.1 [] [] (by cases lt' <;> trivial) (Lexes.done [] rfl)
+    simpa using this
+  · obtain ⟨lt', _, hC⟩ := KC_run as st TS none none hK ⟨by rw [ht0]; rfl, Or.inl ht0⟩ (fun t0 h => by cases h) (Or.inl rfl) hs hcl
+    exact hC.1
+
 /-- grammar token of a punctuation/operator token of the model -/
 def symTokName : Tok → Option String
   | .lp => some "TOK_LEFT_PAREN" | .rp => some "TOK_RIGHT_PAREN" | .lb => some "TOK_LEFT_BRACKET" | .rb => some "TOK_RIGHT_BRACKET"
